@@ -1,6 +1,9 @@
 package main
 
-import "strings"
+import (
+	"fmt"
+	"strings"
+)
 
 const c03SuffixReplay = `package patch
 
@@ -94,17 +97,90 @@ func TestGovcReplay(t *testing.T) {
 }
 `
 
+const c03RawCopyReplay = `package patch
+
+import (
+	"encoding/binary"
+	"syscall"
+	"testing"
+	"unsafe"
+)
+
+// A leaf function that is copied whole into the placeholder: two RIP-relative loads and RET, followed by a
+// byte that does not decode (so GetFuncSize stops right after the RET).
+func TestGovcReplay(t *testing.T) {
+	mem, err := syscall.Mmap(-1, 0, 2*4096, syscall.PROT_READ|syscall.PROT_WRITE|syscall.PROT_EXEC, syscall.MAP_ANON|syscall.MAP_PRIVATE)
+	if err != nil {
+		t.Skip(err)
+	}
+	defer syscall.Munmap(mem)
+	origin := mem[:4096]
+	tramp := mem[4096:]
+	code := []byte{0x48, 0x8B, 0x05, 0x00, 0x10, 0x00, 0x00, 0x48, 0x8B, 0x0D, 0x00, 0x10, 0x00, 0x00, 0xC3, 0x06}
+	copy(origin, code)
+	for i := 0; i < 64; i++ {
+		tramp[i] = 0x90
+	}
+	for i := 64; i < 72; i++ {
+		tramp[i] = 0xCC
+	}
+	tramp[72] = 0x90
+	o := uintptr(unsafe.Pointer(&origin[0]))
+	tr := uintptr(unsafe.Pointer(&tramp[0]))
+	if _, err := fixOriginFuncToTrampoline(o, tr, 13); err != nil {
+		t.Skip(err)
+	}
+	// the first load must still address origin+7+0x1000
+	d := int64(int32(binary.LittleEndian.Uint32(tramp[3:7])))
+	if got, want := int64(tr)+7+d, int64(o)+7+0x1000; got != want {
+		t.Fatalf("placeholder received the raw copy: first RIP-relative load addresses %#x, want %#x (displacement %#x)", got, want, d)
+	}
+}
+`
+
+const c03BranchBackReplay = `package patch
+
+import "testing"
+
+// Representative inputs of the failing class (16 one-byte NOPs, then a short jump back, RET, padding):
+// a branch from the body of the function into the 13 bytes the entry jump overwrites must be refused.
+func TestGovcReplay(t *testing.T) {
+	for _, target := range []int{%s} {
+		block := make([]byte, 0, 64)
+		for i := 0; i < 16; i++ {
+			block = append(block, 0x90)
+		}
+		block = append(block, 0xEB, byte(int8(target-18)), 0xC3)
+		for len(block) < 64 {
+			block = append(block, 0xCC)
+		}
+		func() {
+			defer func() { recover() }() // a panic is an acceptable refusal
+			if err := checkJumpBetween(0x500000, 13, block, len(block)-1); err == nil {
+				t.Errorf("checkJumpBetween accepted a function whose body jumps back to offset %%d of the overwritten 13-byte prefix", target)
+			}
+		}()
+	}
+}
+`
+
 func init() {
 	registerProperty(&PropertyConfig{
 		ID:      "C03",
 		Explain: "relocation contracts over an abstract instruction stream (x86asm.Decode replaced by its contract): displacement re-encoding exact or panics, relocated instruction keeps its absolute target and its non-displacement bytes, placeholder frame, all errors precede the write",
-		Trusted: []string{"x86asm.Decode contract (C16: bounded stand-in)", "|from - trampoline| < 2^31 and targets within one image (Go linker limit for amd64 text)", "package initialisers ran (opExpand contents)", "fixRelativeAddr/fixBlock/checkJumpBetween stream-level behaviour (two passes stop at the same boundary; branch-back check) is a trusted contract, not proved"},
+		Trusted: []string{"x86asm.Decode contract (C16: bounded stand-in)", "|from - trampoline| < 2^31 and targets within one image (Go linker limit for amd64 text)", "package initialisers ran (opExpand contents)", "fixRelativeAddr is a trusted contract (its two fixBlock passes stop at the same boundary); checkJumpBetween is proved per iteration (step clauses), the lift to the whole instruction stream is an induction on paper"},
 		Replay: func(o *Options, g *groupResult, model map[string]string) (string, string, bool) {
 			switch {
 			case strings.HasPrefix(g.name, "internal/patch.fixBlock#"):
 				return "internal/patch", c03GrowthReplay, true
 			case strings.HasPrefix(g.name, "internal/patch.fixIns#"):
 				return "internal/patch", c03SuffixReplay, true
+			case strings.HasPrefix(g.name, "internal/patch.fixOriginFuncToTrampoline#ensures:placeholder_receives"):
+				return "internal/patch", c03RawCopyReplay, true
+			case strings.HasPrefix(g.name, "internal/patch.checkJumpBetween#") && strings.Contains(g.name, "patched_entry"):
+				return "internal/patch", fmt.Sprintf(c03BranchBackReplay, "0"), true
+			case strings.HasPrefix(g.name, "internal/patch.checkJumpBetween#"):
+				return "internal/patch", fmt.Sprintf(c03BranchBackReplay, "1, 5, 12"), true
 			case strings.HasPrefix(g.name, "internal/bytecode.EncodeAddress#"):
 				return "internal/bytecode", c03Rel16Replay, true
 			}
